@@ -72,6 +72,10 @@ Verdict(ev) ==
     CASE ev.e = "RgbRow"  -> RgbRowVerdict(ev)
       [] ev.e = "RgbaRow" -> RgbaRowVerdict(ev)
       [] ev.e = "Conv"    -> ConvVerdict(ev)
+      \* an rgba source of one depth into a destination of another: the same as converting the alpha-premultiplied rgb
+      \* (float destinations are scaled by 2^20: a few units of rounding slack)
+      [] ev.e = "RgbaX"   -> IF \A i \in 1..Len(ev.direct) : Abs(ev.direct[i] - ev.via[i]) <= (IF ev.d = "rgb32f" THEN 8 ELSE 0) THEN {}
+                             ELSE {V("P_FromRgbaIsPremultiplied", "None", ev.s \o "->" \o ev.d, [src |-> ev.src, direct |-> ev.direct, via |-> ev.via])}
       [] ev.e = "Layouts" -> LayoutsVerdict(ev)
       [] ev.e = "ViewAgree" -> ViewVerdict(ev)
       [] ev.e = "Fault"   -> {V("P_NoFault", "None", "driver", ev.kind)}
